@@ -43,6 +43,8 @@ def members(rng):
     def _t(code, fmt, text):      # length-prefixed text opcode + STOP
         raw = text.encode("utf-8", "surrogatepass")
         return code.encode("latin-1") + struct.pack(fmt, len(raw)) + raw + b"."
+    def _f(announced, body):      # protocol 4 header + FRAME announcing `announced` bytes + the opcodes
+        return b"\x80\x04\x95" + struct.pack("<Q", announced) + body
     nat_lo, nat_hi = [], []
     for d, tag in genvalues.natural_pickles(rng, 40):
         if "unsupported" in tag or len(d) > 20000:
@@ -65,6 +67,9 @@ def members(rng):
         "memo": [b"]q\x00h\x00.", b"]p7\ng7\n.", b"]r\x00\x01\x00\x00j\x00\x01\x00\x00.", b"\x80\x04]\x94h\x00.", b"(K\x01K\x022q\x050."],
         "globals": [b"cos\nsystem\n.", b"cpkg.sub\nf\n.", b"(K\x01imod\nCls\n.", b"\x80\x04\x8c\x02os\x8c\x06system\x93.",
                     b"c__builtin__\nset\n(]K\x01atR."],
+        "frames": [_f(4, b"K\x01\x85."), _f(2, b"K\x01\x85."), _f(0, b"K\x01\x85."),
+                   _f(3, b"K\x01\x85") + b"\x95" + struct.pack("<Q", 1) + b"."],
+        "frames_over": [_f(7, b"K\x01\x85."), _f(6, b"]\x94."), _f(12, b"\x8c\x03abc\x94.")],
         "natural_lo": nat_lo, "natural_hi": nat_hi,
         "nonascii": [_t("\x8c", "B", s_) for s_ in ("caf\u00e9", "\u4e2d\u6587", "\U0001f600!", "\u00e9" * 127, "z\u0301" * 60)]
                     + [_t("X", "<I", s_) for s_ in ("\u017elu\u0165ou\u010dk\u00fd", "\u20ac" * 300, "\ud800x")]
@@ -96,7 +101,8 @@ def run_case(fk, c, M, rng, idx):
     body = b"".join(parts) + trail
     data = b"\x00" * c["offset"] + body
     rec = {"id": idx, "kind": c["kind"], "offset": c["offset"], "widths": [len(p) for p in parts], "trail": c["trail"],
-           "trail_w": len(trail), "stock_end": stock_end(body), "case": c, "hex": body.hex()[:160]}
+           "trail_w": len(trail), "stock_end": len(parts[0]) if c["classes"][0] == "frames_over" else stock_end(body),
+           "case": c, "hex": body.hex()[:160]}
     if c["kind"] == "bytes":
         src = body
     elif c["kind"] == "bytearray":
